@@ -248,6 +248,50 @@ def svc_reset(tier: str) -> list[dict[str, Any]]:
     return out
 
 
+# (tester-present interval, base latency, jitter, UDS timeout | None = gallia's default 2 s, initial ping)
+# An honest ECU that needs longer for an answer than the tester-present interval and less than the UDS timeout:
+# every request IS answered in time, so the scan result must be what the ECU supports.  (The initial ping of
+# `wait_for_ecu` has its own fixed budget per ping, 0.5 s today: it is only switched on where every answer takes at
+# most 0.3 s, so that another constant there is not mistaken for a wrong scan.)
+SLOW_TIMINGS: list[tuple[float, float, list[float], float | None, bool]] = [
+    (0.1, 0.25, [0.0], 0.6, True),
+    (0.08, 0.2, [0.0], None, True),
+    (0.5, 0.8, [0.0], None, False),                        # both at gallia's defaults (0.5 s / 2 s)
+    (0.3, 0.4, [-0.05, 0.0, 0.05, 0.02, -0.03], 1.0, False),  # jitter, always slower than the interval
+    (0.15, 0.2, [-0.1, 0.1, 0.08, -0.04, 0.0, 0.06, -0.1], 0.8, True),  # jitter around the interval
+    (0.25, 1.2, [0.0, 0.3, -0.4], None, False),            # several intervals per answer
+    (0.5, 0.05, [0.0, 0.01], None, True),                  # control: the everyday fast ECU
+]
+
+
+def _slow(case: dict[str, Any], timing: tuple[float, float, list[float], float | None, bool], props: bool) -> dict[str, Any]:
+    interval, base, jitter, timeout, ping = timing
+    case["ecu"]["latency"] = {"base": base, "jitter": jitter}
+    case["cfg"].update({"tp_interval": interval, "timeout": timeout, "ping": ping, "properties": props})
+    return case
+
+
+def svc_slow_tp(tier: str) -> list[dict[str, Any]]:
+    """The scan as a user runs it -- cyclic TesterPresent on (UDSScanner's default), interval and timeout as
+    given -- against honest but slow ECUs: the keep-alive shares the connection with the probes, so it matters
+    what the background task does with an answer that takes longer than its own period."""
+    out = []
+    cfgs: list[tuple[list[int] | None, bool, bool]] = [([1, 2], False, False), ([2, 3], True, False),
+                                                       (None, False, True), ([1, 2, 3], False, True)]
+    n = 0
+    for ti, timing in enumerate(SLOW_TIMINGS):
+        for ci, (sessions, check, resp) in enumerate(cfgs):
+            n += 1
+            if tier == "quick" and (ti + ci) % 2:
+                continue
+            ecu = packed_ecu(offset=(n * 29) % 144)
+            for s in ("1", "2", "3"):
+                ecu["svc"][s]["62"] = ans(1, True, 0x3E)   # an honest ECU answers TesterPresent
+            out.append(_slow(svc_case(ecu, sessions, [], SKIPS_SVC[ci % 2][1] if sessions else {}, check, resp, n,
+                                      "svc-slow-tp"), timing, props=n % 3 == 0))
+    return out
+
+
 def svc_random(tier: str, seed: int, services_of: Any) -> list[dict[str, Any]]:
     out = []
     nseeds = 6 if tier == "quick" else 60
@@ -357,6 +401,33 @@ def ident_scripted(tier: str, seed: int) -> list[dict[str, Any]]:
                                 payload = ["aabb", "00", "ff0102"][n % 3]
                             out.append(ident_case(ecu, svc, start, end, sessions, sa, sk, check, payload, n,
                                                   "ident-scripted"))
+    return out
+
+
+def ident_slow_tp(tier: str, seed: int) -> list[dict[str, Any]]:
+    """Identifier scans with the cyclic TesterPresent task running against honest but slow ECUs (see svc_slow_tp)."""
+    rnd = random.Random(seed * 6007 + 3)
+    out = []
+    n = 0
+    for svc, ranges in IDENT_RANGES.items():
+        for (start, end) in ranges[:2] if tier == "quick" else ranges:
+            if end < start:
+                continue
+            for ti, timing in enumerate(SLOW_TIMINGS):
+                n += 1
+                if tier == "quick" and (n + ti) % 2:
+                    continue
+                sessions = [[1, 2], None, [2, 3]][n % 3]
+                if timing[1] + max(timing[2]) > 0.3:
+                    # between two sessions the scanner resets the ECU and waits for it with pings of a fixed budget
+                    # (`wait_for_ecu`, 0.5 s today); an ECU slower than that is not "answering in time" there
+                    sessions = None
+                mid = list(range(start, end + 1))
+                skip = {2: [mid[-1]]} if sessions and n % 2 else {}
+                ecu = ident_model(rnd, svc, start, end, ["rand", "all", "rand"][n % 3], False)
+                payload = "aabb" if svc in (0x2E, 0x31) and n % 2 else None
+                out.append(_slow(ident_case(ecu, svc, start, end, sessions, [], skip, [None, 1][n % 2], payload, n,
+                                            "ident-slow-tp"), timing, props=n % 4 == 0))
     return out
 
 
